@@ -22,6 +22,9 @@ func c04Msg(c *Ctx, stream string, m *dns.Msg, tag string) {
 		return
 	}
 	nt := len(b1) < len(b0)
+	// the whole-message models: decoder on the compressed octets, plain and compressing packers on the decoded message
+	// (messageC_roundtrip is about these functions)
+	msgUnpackCorr(c, stream, b1)
 	if nt {
 		c.Hit("compressed")
 	} else {
